@@ -20,14 +20,17 @@ import corr
 import vlib
 
 PROP = "C06"
-MODULE = "Proofs.C06Sys"
+MODULE = "Proofs.C06Host"
 L = "Teakra.LoopOps."
 S = "Teakra.Sys."
 THEOREMS = [L + t for t in ["P_cyclesN", "go_eq_cycles", "run_eq_cycles", "run_slice", "P_run", "run_partition"]] + \
            [S + t for t in ["ffOk", "obsOk", "run_eq_steps", "run_partition", "upstream_skip_not_idle",
                             "upstream_body_enters_interrupt", "fixed_no_skip", "decoderArray_getD", "decode_brrSelf",
                             "cycle_brr", "interruptCheck_noop", "ticksN_quiet", "skip_eq_ticked", "idle_body",
-                            "body_congr", "tick_congr"]]
+                            "body_congr", "tick_congr", "run_script_slicing", "run_script_merged", "run_script_slicing_items",
+                            "guardEnv_hostOk", "guardP_not_hostOk"]] + \
+           [L + t for t in ["run_congr", "exec_congr", "exec_merge", "exec_same_merge", "exec_run_zero", "exec_insert_run_zero",
+                            "budget_merge"]]
 TRUSTED = ["hand-written model lean/TeakraModel/{Run,RunLoop,Sys,Core,Bus,Periph,Timer,Btdmp,Icu}.lean of Interpreter::Run, "
            "CoreTiming::Tick/Skip and the facade wiring, tied by the `bus run/steps` correspondence on a real Teakra::Teakra",
            "the instruction handlers executed by the loop body are those of C01 (tied there)",
@@ -39,7 +42,11 @@ ASSUMPTIONS = [
     "a well-formed frame clock (an executable guard of the model's tick; the facade cannot change the period); timers are in a "
     "configuration Timer::Tick accepts (otherwise both Run and the single steps abort on the next tick)",
     "cycle budgets up to 2^63",
-    "host events are placed at slice boundaries (between two calls of Run), as in the property",
+    "host events are placed at slice boundaries (between two calls of Run), as in the property; Proofs/C06Host.lean proves the "
+    "statement for scripts of Run calls and host calls (mailbox send/receive, semaphore set/mask/clear, MMIO read/write): two "
+    "scripts with the same host calls at the same cumulative cycle positions observe the same; an MMIO access is covered "
+    "through a guard that never reads the idle flag (it rejects an access that leaves the audio/timer envelope or destroys "
+    "the self-branch the core is parked on)",
     "observation = everything except the interpreter's private idle flag, which Run re-initialises on entry"]
 
 
